@@ -12,6 +12,8 @@ import RedisVerif.Model.Codec
     S <n> {<ts> <hex>}*          → segment image written by the model (`none` for the empty batch)
     IS <hex>                     → set base segment image; read it
     st <len> | sx <pos> <val>    → read the truncated / byte-substituted base segment
+    sw <pos> <hex> | sta <len> <hex>   → bytes written over pos.. (clipped) / cut to len then bytes appended
+    cw <pos> <hex> | cta <len> <hex>   → the same for the base checkpoint
     C <k> <t> <l> <hex>          → checkpoint image written by the model
     IC <hex>                     → set base checkpoint image; read it
     ct <len> | cx <pos> <val> | ca <hex>   → read the truncated / substituted / extended base checkpoint
@@ -78,6 +80,22 @@ def step (s : St) (line : String) : St × String :=
     (match l.toNat? with
     | some n => (s, showSeg s.segPayloads (readSeg s.strict (s.seg.take n)))
     | none => (s, "bad-op"))
+  | ["sw", p, h] =>
+    (match p.toNat?, bytesTok.run [h] with
+    | some p, some (b, _) => (s, showSeg s.segPayloads (readSeg s.strict (C10.overwrite s.seg p b)))
+    | _, _ => (s, "bad-op"))
+  | ["sta", l, h] =>
+    (match l.toNat?, bytesTok.run [h] with
+    | some l, some (b, _) => (s, showSeg s.segPayloads (readSeg s.strict (s.seg.take l ++ b)))
+    | _, _ => (s, "bad-op"))
+  | ["cw", p, h] =>
+    (match p.toNat?, bytesTok.run [h] with
+    | some p, some (b, _) => (s, showChk s.chkPayload (readChk (C10.overwrite s.chk p b)))
+    | _, _ => (s, "bad-op"))
+  | ["cta", l, h] =>
+    (match l.toNat?, bytesTok.run [h] with
+    | some l, some (b, _) => (s, showChk s.chkPayload (readChk (s.chk.take l ++ b)))
+    | _, _ => (s, "bad-op"))
   | ["sx", p, v] =>
     (match p.toNat?, v.toNat? with
     | some p, some v => (s, showSeg s.segPayloads (readSeg s.strict (s.seg.set p v)))
